@@ -28,6 +28,7 @@ import shutil
 import stat
 import subprocess
 import sys
+import time
 from concurrent.futures import ThreadPoolExecutor
 
 sys.path.insert(0, os.path.join(os.path.dirname(os.path.abspath(__file__)),
@@ -42,6 +43,28 @@ ck.require_theorems(['LbzVerif.Props.C18.' + n for n in (
     'runMany_singletons', 'status_of_outcomes', 'independence')])
 exe = ck.build_lbzip2(asan=False)
 drv = ck.driver()
+
+
+def private_driver(drv):
+    """Other work packages may relink the shared driver while this campaign
+    runs: take a copy now and make sure it knows this package's commands."""
+    for attempt in range(4):
+        cp = os.path.join(ck.tmp, 'lbzdrv-' + str(attempt))
+        try:
+            shutil.copy2(drv, cp)
+            rc, rep, _ = batch([cp], ['status 0,4'], timeout=60)
+            if rc == 0 and rep == ['4 2']:
+                return cp
+        except (OSError, subprocess.SubprocessError):
+            pass
+        time.sleep(5)
+        if 'LBZDRV' not in os.environ:
+            ck._lake(['build', 'lbzdrv'])
+    ck.broken.append('driver: lbzdrv does not answer ' + 'status 0,4')
+    return drv
+
+
+drv = private_driver(drv)
 rng = ck.rng
 TIMEOUT = 60
 
